@@ -1,7 +1,10 @@
 (* C14 — Errors keep their code, message and data from handler to caller.
    This file only restates the property theorems; proofs are in errs/ErrsProofs.v.
    Model: errs/Errs.v (gerr = the error values users can build; call r e = what
-   Client.Call returns when the handler returned (value, e) and json.Marshal(value) = r). *)
+   Client.Call returns when the handler returned (value, e) and json.Marshal(value) = r).
+   The model is the code with fix F16/F17 (jmessage.toJSON encodes an error object whose data
+   are not JSON without its data instead of failing); call_gen false / batch_gen false is the
+   behaviour before the fix, kept for the ..._without_F16 theorems. *)
 From Coq Require Import List NArith ZArith Bool.
 From JV Require Import Bytes Msg ErrsJson ErrsJsonProofs Errs ErrsProofs.
 Import ListNotations.
@@ -10,10 +13,15 @@ Local Open Scope Z_scope.
 (* -- the caller's ErrorCode equals the handler's ----------------------------------------- *)
 
 Theorem c14_code_preserved : forall r e,
-  is_nil e = false -> deliverable e = true -> (is_top_jrpc e = true \/ error_code e <> NoError) ->
+  is_nil e = false -> (is_top_jrpc e = true \/ error_code e <> NoError) ->
   outcome_code (call r e) = Some (error_code e).
 Proof. exact code_preserved_explicit. Qed.
 Print Assumptions c14_code_preserved.
+
+Theorem c14_code_preserved_top_level_error : forall r c m d,
+  outcome_code (call r (EJrpc c m d)) = Some c.
+Proof. exact code_preserved_jrpc. Qed.
+Print Assumptions c14_code_preserved_top_level_error.
 
 Theorem c14_code_preserved_exact : forall r e,
   is_nil e = false ->
@@ -33,11 +41,36 @@ Theorem c14_code_preserved_refuted_noerror_coder :
 Proof. exact code_preserved_refuted_noerror_coder. Qed.
 Print Assumptions c14_code_preserved_refuted_noerror_coder.
 
-Theorem c14_code_preserved_refuted_bad_data :
+Theorem c14_code_preserved_refuted_without_F16 :
   let e := EJrpc 7 [109]%N [123; 98; 97; 100]%N in
-  is_nil e = false /\ code_dom e = false /\ forall r, call r e = OLost.
-Proof. exact code_preserved_refuted_bad_data. Qed.
-Print Assumptions c14_code_preserved_refuted_bad_data.
+  is_nil e = false /\ code_dom e = true /\ code_dom_pre16 e = false /\
+  (forall r, call_gen false r e = OLost) /\
+  (forall r, outcome_code (call_gen false r e) <> Some (error_code e)) /\
+  (forall r, outcome_code (call r e) = Some (error_code e)).
+Proof. exact code_preserved_refuted_without_F16. Qed.
+Print Assumptions c14_code_preserved_refuted_without_F16.
+
+Theorem c14_code_preserved_exact_without_F16 : forall r e,
+  is_nil e = false ->
+  (outcome_code (call_gen false r e) = Some (error_code e) <-> code_dom_pre16 e = true).
+Proof. exact code_preserved_pre16_iff. Qed.
+Print Assumptions c14_code_preserved_exact_without_F16.
+
+(* -- a reply is never lost (fix F16) ------------------------------------------------------- *)
+
+Theorem c14_reply_never_lost : forall r e, call r e <> OLost.
+Proof. exact call_never_lost. Qed.
+Print Assumptions c14_reply_never_lost.
+
+Theorem c14_reply_lost_without_F16_exact : forall r e,
+  is_nil e = false -> (call_gen false r e = OLost <-> deliverable e = false).
+Proof. exact lost_pre16_iff. Qed.
+Print Assumptions c14_reply_lost_without_F16_exact.
+
+Theorem c14_F16_changes_nothing_else : forall r e,
+  is_nil e = false -> deliverable e = true -> call_gen false r e = call r e.
+Proof. exact fix16_conservative. Qed.
+Print Assumptions c14_F16_changes_nothing_else.
 
 Theorem c14_wrap_preserves_code : forall m e,
   is_nil e = false -> error_code (EWrap m e) = error_code e.
@@ -63,8 +96,7 @@ Theorem c14_data_json_equal : forall d d',
 Proof. exact data_json_equal. Qed.
 Print Assumptions c14_data_json_equal.
 
-Theorem c14_error_verbatim_refuted_sentinel_codes : forall r m d d',
-  wire_data d = Some d' ->
+Theorem c14_error_verbatim_refuted_sentinel_codes : forall r m d,
   call r (EJrpc Cancelled m d) = OErr ECanceled /\
   call r (EJrpc DeadlineExceeded m d) = OErr EDeadline.
 Proof. exact error_verbatim_refuted_sentinel_codes. Qed.
@@ -76,10 +108,34 @@ Theorem c14_error_verbatim_refuted_invalid_utf8 :
 Proof. exact error_verbatim_refuted_invalid_utf8. Qed.
 Print Assumptions c14_error_verbatim_refuted_invalid_utf8.
 
-Theorem c14_error_verbatim_refuted_invalid_data : forall r c m d,
-  wire_data d = None -> call r (EJrpc c m d) = OLost.
-Proof. exact error_verbatim_refuted_invalid_data. Qed.
-Print Assumptions c14_error_verbatim_refuted_invalid_data.
+Theorem c14_error_arrives : forall r c m d,
+  call r (EJrpc c m d) =
+  OErr (from_wire {| we_code := c; we_msg := sanitize_utf8 m;
+                     we_data := match wire_data d with Some d' => d' | None => [] end |}).
+Proof. exact call_jrpc. Qed.
+Print Assumptions c14_error_arrives.
+
+Theorem c14_undeliverable_data_dropped : forall r c m d,
+  wire_data d = None ->
+  call r (EJrpc c m d) = OErr (from_wire {| we_code := c; we_msg := sanitize_utf8 m; we_data := [] |}).
+Proof. exact undeliverable_data_dropped. Qed.
+Print Assumptions c14_undeliverable_data_dropped.
+
+Theorem c14_undeliverable_data_dropped_explicit : forall r c m d,
+  c <> Cancelled -> c <> DeadlineExceeded -> valid_utf8 m = true -> wire_data d = None ->
+  call r (EJrpc c m d) = OErr (EJrpc c m []) /\ call r (EJrpc c m d) = call r (EJrpc c m []).
+Proof. exact undeliverable_data_dropped_explicit. Qed.
+Print Assumptions c14_undeliverable_data_dropped_explicit.
+
+Theorem c14_undeliverable_data_domain : forall d,
+  wire_data d = None <-> (d <> [] /\ json_valid d = false).
+Proof. exact wire_data_none_iff. Qed.
+Print Assumptions c14_undeliverable_data_domain.
+
+Theorem c14_error_verbatim_refuted_without_F16 : forall r c m d,
+  wire_data d = None -> call_gen false r (EJrpc c m d) = OLost.
+Proof. exact error_verbatim_refuted_without_F16. Qed.
+Print Assumptions c14_error_verbatim_refuted_without_F16.
 
 Theorem c14_error_verbatim_refuted_value_and_wrapped :
   (forall r, call r (EJrpcV 7 [109]%N [49]%N) = OErr (EJrpc 7 [91; 55; 93; 32; 109]%N [])) /\
@@ -98,7 +154,7 @@ Proof. exact sentinels. Qed.
 Print Assumptions c14_sentinels.
 
 Theorem c14_sentinels_exact : forall r e,
-  is_nil e = false -> deliverable e = true ->
+  is_nil e = false ->
   (call r e = OErr ECanceled <-> error_code e = Cancelled) /\
   (call r e = OErr EDeadline <-> error_code e = DeadlineExceeded).
 Proof. exact sentinel_iff. Qed.
@@ -184,6 +240,37 @@ Theorem c14_refuted_without_F15 :
             we_msg := [106; 58; 32; 91; 45; 51; 50; 55; 48; 48; 93; 32; 112]%N; we_data := [] |}.
 Proof. exact notify_reply_leak_without_F15. Qed.
 Print Assumptions c14_refuted_without_F15.
+
+(* -- batches: no call loses its reply because of a sibling (fix F16/F17) ------------------------- *)
+
+Theorem c14_batch_members_independent : forall cs,
+  batch cs = map (fun c => deliver (invoke false (fst c) (snd c))) cs.
+Proof. exact batch_members_independent. Qed.
+Print Assumptions c14_batch_members_independent.
+
+Theorem c14_batch_never_loses : forall cs w, In w (batch cs) -> w <> WLost.
+Proof. exact batch_never_loses. Qed.
+Print Assumptions c14_batch_never_loses.
+
+Theorem c14_call_is_delivered_reply : forall r e,
+  call r e = match deliver (invoke false r e) with
+             | WResult raw => OResult raw
+             | WError w => OErr (from_wire w)
+             | WLost => OLost
+             end.
+Proof. exact call_deliver. Qed.
+Print Assumptions c14_call_is_delivered_reply.
+
+Theorem c14_refuted_without_F16 :
+  let ok := (ResJson [116; 114; 117; 101]%N, enil) in
+  let bad := (ResJson [116; 114; 117; 101]%N, EJrpc 7 [110; 111]%N [123; 98; 97; 100]%N) in
+  batch_gen false [ok; bad] = [WLost; WLost] /\
+  batch_gen false [ok] = [WResult [116; 114; 117; 101]%N] /\
+  call_gen false (fst ok) (snd ok) = OResult [116; 114; 117; 101]%N /\
+  batch [ok; bad] = [WResult [116; 114; 117; 101]%N;
+                     WError {| we_code := 7; we_msg := [110; 111]%N; we_data := [] |}].
+Proof. exact batch_refuted_without_F16. Qed.
+Print Assumptions c14_refuted_without_F16.
 
 (* -- cancelling the request does not replace the error its handler returns ----------------------- *)
 
